@@ -7,6 +7,20 @@ import (
 )
 
 func DecodeParameterType(conditionParamType *openfgav1.ConditionParamTypeRef) (*ParameterType, error) {
+	return decodeParameterType(conditionParamType, 0)
+}
+
+// maxGenericTypeNesting bounds how deep generic parameter types (list<list<...>>, map<...>) may nest.
+// The cost of compiling a condition grows faster than linearly with the nesting of its parameter
+// types (CEL formats every nested type name), so a 20 KB model with a few thousand levels would
+// otherwise keep a request busy for minutes, regardless of its deadline.
+const maxGenericTypeNesting = 100
+
+func decodeParameterType(conditionParamType *openfgav1.ConditionParamTypeRef, depth int) (*ParameterType, error) {
+	if depth > maxGenericTypeNesting {
+		return nil, fmt.Errorf("condition parameter type nests generic types deeper than %d levels", maxGenericTypeNesting)
+	}
+
 	paramTypedef, ok := paramTypeDefinitions[conditionParamType.GetTypeName()]
 	if !ok {
 		return nil, fmt.Errorf("unknown condition parameter type `%s`", conditionParamType.GetTypeName())
@@ -23,7 +37,7 @@ func DecodeParameterType(conditionParamType *openfgav1.ConditionParamTypeRef) (*
 
 	genericTypes := make([]ParameterType, 0, paramTypedef.genericTypeCount)
 	for _, encodedGenericType := range conditionParamType.GetGenericTypes() {
-		genericType, err := DecodeParameterType(encodedGenericType)
+		genericType, err := decodeParameterType(encodedGenericType, depth+1)
 		if err != nil {
 			return nil, err
 		}
